@@ -27,10 +27,11 @@ META = {
   rule="packets built through the public constructors: one record of each of the 43 RDATA kinds alone in each section, then random packets (0..8 entries per section, all classes, cache-flush/unicast bits, boundary integers, binary labels, names up to 255 bytes, with/without OPT, every named opcode/rcode); build_bytes_vec compared byte for byte with the model, Packet::parse of the bytes compared with the model, and the intrinsic oracle parse(build(p)) == p on every field; distinct = distinct (request, output); the excluded point TXT-without-strings is run as the last case",
   assumptions=STD, timeout=dict(quick=600, thorough=7200)),
  "C03": dict(
-  extra_modules=["Tie"],
+  extra_modules=["C03Length", "Tie"],
   rule="packets as C02 generated with heavy suffix sharing (label pool of 8), plus large messages straddling 16 KiB (padding records, then names repeated on both sides of offset 16383) and up to ~60 KB; build_bytes_vec_compressed compared byte for byte with the model; oracle: parse(compressed) == parse(plain) and len(compressed) <= len(plain); distinct = distinct (request, output)",
   assumptions=STD, timeout=dict(quick=600, thorough=7200)),
  "C05": dict(
+  extra_modules=["C05Trailing"],
   rule="reference-encoded messages (independent encoder, caller-chosen compression anywhere, OPT at any index) with RDLENGTH made larger/smaller than the natural size (+-1, +2, +7, to the end of the message, past it, zero), the same with surplus bytes inserted so that the envelope stays consistent and more records follow, every count +-1, truncations, plus valid library-built packets; Packet::parse compared exactly with the model; oracle: an independent RFC 1035 envelope walker in the harness, each returned question/record compared with its entry (owner, type, class, flush, ttl), and RDATA re-parsed from the message cut at the record's end; non-trivial = distinct (request, output)",
   assumptions=STD, timeout=dict(quick=600, thorough=7200)),
  "C11": dict(
